@@ -100,7 +100,21 @@ func (e *Exec) ufBytes(name string, in []*smt.Term, outBytes int, real func([]by
 	if len(in) == 0 {
 		app = smt.App(fname, smt.BV(outBytes*8))
 	} else {
-		app = smt.App(fname, smt.BV(outBytes*8), concatBytes(in))
+		arg := concatBytes(in)
+		app = smt.App(fname, smt.BV(outBytes*8), arg)
+		if e.Cfg.InjectiveUF {
+			// collision freedom of the idealised hash, instantiated for the applications on this path
+			if e.ufApps == nil {
+				e.ufApps = map[string][][2]*smt.Term{}
+			}
+			for _, prev := range e.ufApps[fname] {
+				if prev[0] == arg {
+					continue
+				}
+				e.pc = append(e.pc, smt.Implies(smt.Eq(app, prev[1]), smt.Eq(arg, prev[0])))
+			}
+			e.ufApps[fname] = append(e.ufApps[fname], [2]*smt.Term{arg, app})
+		}
 	}
 	return bytesOfTerm(app, outBytes)
 }
